@@ -138,6 +138,7 @@ func bbAssert(focus, prop int, name string, cond bool) {
 //	1: as 0 with a Send in between that the gateway rejects with an error status
 //	2: connect - Send - inbound 0 - heartbeats unanswered - reconnect (new channel may equal the old
 //	   one) - Send - inbound 0 of the new epoch
+//	3: connect - Send - twelve heartbeat intervals with every heartbeat answered
 //
 // Asserted: the sequence numbers the gateway sees on tunnelling requests (C03), delivery and
 // acknowledgement of inbound requests incl. the restart at 0 after the reconnect (C04), the error
@@ -191,6 +192,27 @@ func HarnessTunnelBB(a []int) {
 	wantAcks := 3
 	verifAssert("BB.send", conn.Send(tunReq(0)) == nil)
 	switch scenario {
+	case 3:
+		// a long healthy connection: twelve heartbeat intervals, every request answered - a
+		// connection-state request goes out in each of them (state that only a long history builds
+		// up, such as worker limits or counters, shows here)
+		const rounds = 12
+		hb := int64(cfg.HeartbeatInterval)
+		verifSleep(rounds*hb + hb/2)
+		verifQuiesce()
+		var at []int64
+		for i, f := range g.frames {
+			if _, ok := f.(*knxnet.ConnStateReq); ok {
+				at = append(at, g.stamps[i])
+			}
+		}
+		bbAssert(focus, 9, "BB.C09.heartbeat_every_interval", len(at) >= rounds)
+		for i := 1; i < len(at); i++ {
+			bbAssert(focus, 9, "BB.C09.heartbeat_gap", at[i]-at[i-1] <= hb)
+		}
+		bbAssert(focus, 9, "BB.C09.no_reconnect_when_healthy", connects == 1)
+		wantSeqs = []int{0}
+		wantAcks = 0
 	case 0, 1:
 		if scenario == 1 {
 			rejectNext = true
